@@ -52,3 +52,43 @@ Example c01_nonvacuous :
   exists s0, init_sys (mkScfg {| cfg_user := []; cfg_pass := None; cfg_will := None; cfg_keepalive := 0; cfg_clean := false |}
                               true 4 4 256 1000 1000) [99] (mkTapes [false; false] [] [] []) = Some s0.
 Proof. exact reachable_nonvacuous. Qed.
+
+(* ---- mixed histories: API calls interleaved with process stop + AdoptSession ---- *)
+From MQ Require Import Session Outbound OutboundInv OutboundRefine SessionTheorems AdoptProofs MixedHistories.
+Open Scope N_scope.
+(* Additions for coq/props/C01.v (needs AdoptProofs MixedHistories in its Require line):
+   c01_record_kept for mixed histories. *)
+Theorem c01_record_kept_mixed : forall s, reachable_mixed s ->
+  let st := ost_of s in
+  (forall n, o_acked st <= n < o_acc1 st ->
+     exists retain topic msg sq, holds (o_store st) (key1 n) (pub1_packet retain topic msg n) sq /\ sq <= o_rseq st) /\
+  (forall n, o_compl st <= n < o_recvd st ->
+     exists sq, holds (o_store st) (key2 n) (packet_pubrel (key2 n)) sq /\ sq <= o_rseq st) /\
+  (forall n, o_recvd st <= n < o_acc2 st ->
+     exists retain topic msg sq, holds (o_store st) (key2 n) (pub2_packet retain topic msg n) sq /\ sq <= o_rseq st).
+Proof. intros s H. apply record_kept. exact (proj1 (reachable_mixed_good s H)). Qed.
+Print Assumptions c01_record_kept_mixed.
+
+(* reachable_inv for mixed histories *)
+Theorem c01_reachable_inv_mixed : forall cf cid tp0 s0 h,
+  cfg_ok cf -> init_sys cf cid tp0 = Some s0 ->
+  Forall (fun p => op_level_ok (fst p)) h ->
+  rseq_bounded s0 h ->
+  OInv' (ost_of (run s0 h)).
+Proof. intros. eapply reachable_good_mixed; eassumption. Qed.
+Print Assumptions c01_reachable_inv_mixed.
+
+(* the adoption-free reachable states of c01_record_kept are among the mixed ones *)
+Theorem c01_reachable_wf_mixed : forall s, reachable_wf s -> reachable_mixed s.
+Proof. exact reachable_wf_mixed. Qed.
+Print Assumptions c01_reachable_wf_mixed.
+
+(* one more call of any kind from a state reached by a mixed history *)
+Theorem c01_no_fault_stops_it_mixed : forall s o tp s' r log,
+  reachable_mixed s -> op_level_ok o -> exec s o tp = Some (s', r, log) ->
+  o_rseq (ost_of s') < M64 -> OInv' (ost_of s').
+Proof.
+  intros s o tp s' r log Hr Hl E Hb.
+  exact (proj1 (exec_good _ _ _ _ _ _ E Hl (reachable_mixed_good s Hr) Hb)).
+Qed.
+Print Assumptions c01_no_fault_stops_it_mixed.
